@@ -185,3 +185,47 @@ def cps(s):
 def st(a):
     """list of code points -> str."""
     return ''.join(chr(c) for c in a)
+
+
+def generic_replay(pid, path):
+    """./check Cxx --replay <file>: re-run exactly the recorded case against the working tree when its shape is known
+    (document + selector + expected ids; recorded select event), otherwise re-run the property's quick check."""
+    import re
+    import subprocess
+    import warnings
+    rec = json.load(open(path))
+    case = rec.get('case') or {}
+    print('replay of %s: %s' % (rec.get('property', pid), rec.get('what', '')[:300]))
+    ev = case.get('event') if isinstance(case.get('event'), dict) else None
+    d = case.get('doc') or (ev or {}).get('doc')
+    css = case.get('selector') if isinstance(case.get('selector'), str) else None
+    if ev and ev.get('css'):
+        css = ev['css']
+    if isinstance(d, dict) and 'parent' in d and css:
+        warnings.simplefilter('ignore')
+        sv, bs4 = import_repo()
+        from . import dom
+        container, nodes = dom.build(d, bs4)
+        idmap = dom.ids_of(nodes)
+        target = container
+        nsmap = None
+        if ev:
+            if ev.get('target'):
+                target = nodes[ev['target']]
+            if ev.get('nsmap'):
+                nsmap = {st(e['p']): st(e['u']) for e in ev['nsmap']}
+        try:
+            got = [idmap.get(id(t), -1) for t in sv.select(css, target, namespaces=nsmap)]
+        except Exception as e:
+            got = '%s: %s' % (type(e).__name__, str(e).split('\n')[0])
+        exp = case.get('expected')
+        if exp is None and case.get('spec_expected') is not None:
+            exp = [int(x) for x in re.findall(r'-?\d+', str(case['spec_expected']))]
+        print('selector %r -> %r ; specification: %r' % (css, got, exp))
+        if exp is not None:
+            ok = got == exp
+            print('VIOLATION property=%s replay=%s' % (pid, path) if not ok else 'replay: the case now conforms')
+            return 0 if ok else 1
+    print('(no single-case replay for this kind of case: re-running the quick check)')
+    r = subprocess.run([os.path.join(VERIF, 'check'), pid, '--tier', 'quick'])
+    return r.returncode
